@@ -115,7 +115,11 @@ class KeyFile:
         except OSError:
             self.__key = self.__generate_key()
         else:
-            self._validate_key()
+            try:
+                self._validate_key()
+            except EncryptionError:
+                self.__key = None
+                raise
 
     def __generate_key(self) -> bytes:
         """
